@@ -212,10 +212,20 @@ def build(ctx, pkg, race=False, tags="verif", test=False, name=None):
     return out
 
 
+def harness_env(ctx):
+    """Environment of a harness process: its temporary files (mtail's glog files, sockets, scratch directories) go under the
+    check's own scratch directory, which is removed when the check ends - not into /tmp."""
+    e = goenv()
+    t = os.path.join(ctx.scratch, "t")
+    os.makedirs(t, exist_ok=True)
+    e["TMPDIR"] = t
+    return e
+
+
 def run_harness(ctx, binary, args=(), cases=None, timeout=600, env=None, infile=None):
     """Run a harness binary; `cases` (iterable of dicts) are written as ndjson on
     stdin.  Returns list of parsed ndjson output records."""
-    e = goenv()
+    e = harness_env(ctx)
     e["VERIF_SEED"] = str(ctx.seed)
     if env:
         e.update(env)
